@@ -150,6 +150,10 @@ type c17Def struct {
 
 func (v *c17Def) IsDefault() bool { return v.def }
 
+type c17BoolDef struct{ c17Def }
+
+func (v *c17BoolDef) IsBoolFlag() bool { return true }
+
 type hNode struct {
 	name     string
 	aliases  []string
@@ -175,22 +179,22 @@ func (n *hNode) path() string {
 	return n.parent.path() + " " + n.name
 }
 
-var hDescs = []string{"", "one line", "first line\nsecond line", "with (parens) and $VAR", "a\n\nb", "  padded  ", "x\n  indented cont", "ends with colon:", "Options are nice"}
+var hDescs = []string{"", "one line", "50% of %s done, 100%d", "%", "first line\nsecond line", "with (parens) and $VAR", "a\n\nb", "  padded  ", "x\n  indented cont", "ends with colon:", "Options are nice"}
 var hEnvs = []string{"", "E1", "E1 E2", "  E1   E2  E3 ", " ", "E_SET"}
 
 // genHelpNode draws declarations for one command and records the rows its help must show
 func genHelpNode(r *rand.Rand, name string, depth int, parent *hNode, version bool) *hNode {
 	n := &hNode{name: name, aliases: []string{name}, parent: parent}
-	n.desc = strings.Replace(hDescs[1+r.Intn(4)], "\n", " ", -1)
+	n.desc = strings.Replace(hDescs[1+r.Intn(6)], "\n", " ", -1)
 	if parent != nil {
 		for j := 0; j < r.Intn(3); j++ {
 			n.aliases = append(n.aliases, fmt.Sprintf("%s_%d", name, j))
 		}
-		n.desc = strings.Replace(hDescs[r.Intn(5)], "\n", " ", -1)
+		n.desc = strings.Replace(hDescs[r.Intn(7)], "\n", " ", -1)
 		n.hidden = r.Intn(4) == 0
 	}
 	if r.Intn(2) == 0 {
-		n.longDesc = "LONG description\nof " + name
+		n.longDesc = "LONG description\nof " + name + []string{"", " (100% %v)"}[r.Intn(2)]
 	}
 	names := []string{"a", "b", "c", "d", "e", "long1", "long2", "l3", "x-y", "f", "Z", "zz", "g", "i", "j", "k", "l", "m", "n", "o", "p", "q", "r", "long-name-4", "ln5", "s", "t", "u", "another_long-one", "w", "y"}
 	r.Shuffle(len(names), func(i, j int) { names[i], names[j] = names[j], names[i] })
@@ -228,6 +232,9 @@ func genHelpNode(r *rand.Rand, name string, depth int, parent *hNode, version bo
 			var val flag.Value = &c17Plain{txt}
 			if typ == 8 {
 				val = &c17Def{c17Plain{txt}, isDef}
+				if r.Intn(2) == 0 {
+					val = &c17BoolDef{c17Def{c17Plain{txt}, isDef}} // also a bool flag: IsDefault still decides
+				}
 			}
 			if r.Intn(2) == 0 && e == "" && !hide {
 				decls = append(decls, func(c *cli.Cmd) { c.VarOpt(name, val, d) })
